@@ -379,7 +379,39 @@ func genC05(t *rapid.T) CaseC05 {
 			break
 		}
 		sp := genSplice(t, true)
+		cut := false
+		if c.Family != "well-formed" && rapid.IntRange(0, 3).Draw(t, "desc-cut") == 0 {
+			// a segmentation descriptor whose body ends 1..6 bytes early (or carries 1..3 bytes too many) while
+			// descriptor_length, descriptor_loop_length, section_length and CRC_32 are all consistent with it
+			for i := range sp.Descs {
+				if d := sp.Descs[i]; !d.Foreign && rapid.Bool().Draw(t, "desc-cut-this") {
+					if rapid.Bool().Draw(t, "desc-cut-sub") {
+						// the longest tail: sub-segment fields behind segments_expected
+						d.Cancel, d.HasSub = false, true
+						d.Type = rapid.SampledFrom([]byte{0x34, 0x36}).Draw(t, "desc-cut-type")
+					}
+					body := d.Bytes()[2:]
+					k := rapid.SampledFrom([]int{1, 1, 2, 3, 4, 5, 6, -1, -2, -3}).Draw(t, "desc-cut-by")
+					switch {
+					case k > 0 && k <= len(body):
+						body = body[:len(body)-k]
+					case k < 0:
+						body = append(clone(body), genBytes(t, -k, -k, "desc-extra")...)
+					}
+					if len(body) <= 255 {
+						sp.Descs[i] = ref.SpliceDesc{Foreign: true, FTag: 0x02, FBody: body}
+						cut = true
+					}
+				}
+			}
+		}
 		wf := append([]byte{0}, sp.Encode()...)
+		if cut {
+			// used as built: every outer length and the CRC agree with the damaged descriptor
+			c.Family = "mutated"
+			c.Input = wf
+			break
+		}
 		c.Input = c05Shape(t, c.Family, wf, 120)
 		if c.Family == "mutated" && rapid.IntRange(0, 3).Draw(t, "force-mid") == 0 {
 			// force a UPID type to MID with a drawn residual length: the classic "almost well-formed" signal
@@ -1010,7 +1042,7 @@ func checkC05(c CaseC05, x *hx.Ctx) *hx.Failure {
 var propC05 = hx.Register(hx.Prop[CaseC05]{ID: "C05", Gen: genC05, Check: checkC05})
 
 func c05Rule() {
-	hx.Rec("C05").SetRule("cases: (entry-point group, input) over 17 groups: packet accessors / adaptation-field getters / modifiers on 188-byte arrays; FromBytes; PSI accessors; NewPAT, NewPMT (+ every getter, descriptor decoder, String, RemoveElementaryStreams), descriptor decoders directly, FilterPMTPacketsToPids; NewPESHeader; ReadEncoderBoundaryPoint; NewSCTE35 (+ every getter of signal/command/descriptors, String, UpdateData, re-decode, state tracker); Sync, ReadPAT, ReadPMT, accumulator, IOWriter.Write/ReadFrom over byte streams through fragmenting and failing readers. Inputs come from three families: well-formed instances from the reference builders; those instances mutated 1..3 times (truncate anywhere, boundary constants 0x00/0xFF/0x7F/0x80/0x0D/0x47/183/184/188 at any offset, +-1/2 on any byte, random byte, extension, bit flip, byte removal; for packets: af_len 0..255, flags byte, AFC, variable-field length bytes; for SCTE-35: UPID type forced to MID with any residual length, and 65 KiB sections with descriptor_loop_length >= 65270 ending up to 3 bytes short/long); arbitrary bytes. Oracle: no panic (recovered, keyed by innermost library function + statement text), returns within 20 s and below 1 GiB heap (in-process watchdog), every decoder call (NewPAT, NewPMT, NewPESHeader, ReadEncoderBoundaryPoint, NewSCTE35) allocates at most 32 KiB + 128 bytes per input byte and (on one case in eight) the whole call sequence at most 2 MiB + 16 KiB per input byte (exact TotalAlloc deltas), read-only operations leave the caller's buffer byte-identical, objects returned without error survive all getters, printing and re-encoding. Non-trivial: input from the mutated, arbitrary or bigloop family; distinct by (target, input).",
+	hx.Rec("C05").SetRule("cases: (entry-point group, input) over 17 groups: packet accessors / adaptation-field getters / modifiers on 188-byte arrays; FromBytes; PSI accessors; NewPAT, NewPMT (+ every getter, descriptor decoder, String, RemoveElementaryStreams), descriptor decoders directly, FilterPMTPacketsToPids; NewPESHeader; ReadEncoderBoundaryPoint; NewSCTE35 (+ every getter of signal/command/descriptors, String, UpdateData, re-decode, state tracker); Sync, ReadPAT, ReadPMT, accumulator, IOWriter.Write/ReadFrom over byte streams through fragmenting and failing readers. Inputs come from three families: well-formed instances from the reference builders; those instances mutated 1..3 times (truncate anywhere, boundary constants 0x00/0xFF/0x7F/0x80/0x0D/0x47/183/184/188 at any offset, +-1/2 on any byte, random byte, extension, bit flip, byte removal; for packets: af_len 0..255, flags byte, AFC, variable-field length bytes; for SCTE-35: UPID type forced to MID with any residual length, segmentation descriptors ending 1..6 bytes early or 1..3 late inside otherwise consistent lengths, and 65 KiB sections with descriptor_loop_length >= 65270 ending up to 3 bytes short/long); arbitrary bytes. Oracle: no panic (recovered, keyed by innermost library function + statement text), returns within 20 s and below 1 GiB heap (in-process watchdog), every decoder call (NewPAT, NewPMT, NewPESHeader, ReadEncoderBoundaryPoint, NewSCTE35) allocates at most 32 KiB + 128 bytes per input byte and (on one case in eight) the whole call sequence at most 2 MiB + 16 KiB per input byte (exact TotalAlloc deltas), read-only operations leave the caller's buffer byte-identical, objects returned without error survive all getters, printing and re-encoding. Non-trivial: input from the mutated, arbitrary or bigloop family; distinct by (target, input).",
 		"a returned error is always acceptable",
 		"the CLI main package is not driven in-process",
 		"hang / heap thresholds (20 s, 1 GiB) are four to six orders of magnitude above the normal cost of a case; the allocation budgets are 4x (decoders) to 10x (whole sequence) above the maxima measured on the repaired tree (TestC05_ZAllocSurvey)")
